@@ -152,17 +152,25 @@ inductive Exit (ρ σ : Type) where
   | ret (r : ρ)
   | fall (s : σ)
 
+/-- continue with the next iteration unless the loop has already been left -/
+def Step.andThen {ρ σ : Type} (acc : R (Step ρ σ)) (f : σ → R (Step ρ σ)) : R (Step ρ σ) :=
+  acc.bind fun
+    | .next s => f s
+    | .brk s => .ok (.brk s)
+    | .ret r => .ok (.ret r)
+
+/-- how the loop was left -/
+def Step.toExit {ρ σ : Type} : Step ρ σ → Exit ρ σ
+  | .next s => .fall s
+  | .brk s => .fall s
+  | .ret r => .ret r
+
 /-- `for i := lo; i < hi; i += step { … return r … break … }`: the first iteration that returns
     or breaks ends the loop -/
 def forRangeRet {ρ σ : Type} (lo hi step : Int) (s : σ) (body : Int → σ → R (Step ρ σ)) : R (Exit ρ σ) :=
   ((List.range (tripCount lo hi step)).foldl
-    (fun (acc : R (Step ρ σ)) (k : Nat) => acc.bind fun
-      | .next s => body (lo + step * (k : Int)) s
-      | .brk s => .ok (.brk s)
-      | .ret r => .ok (.ret r)) (.ok (.next s))).bind fun
-    | .next s => .ok (.fall s)
-    | .brk s => .ok (.fall s)
-    | .ret r => .ok (.ret r)
+    (fun (acc : R (Step ρ σ)) (k : Nat) => Step.andThen acc (body (lo + step * (k : Int)))) (.ok (.next s))).bind
+    fun st => .ok st.toExit
 
 /-- `for cond(s) { s = body(s) }` with fuel: `.hang` when the fuel does not suffice -/
 def whileFuel {σ : Type} : Nat → (σ → Bool) → (σ → R σ) → σ → R σ
